@@ -660,7 +660,9 @@ class NDArray:
         flat = reshape(self, (-1,))
         keep = NDArray(flat.shape, lambda i: s_not(truthy(flat.mask_fn(i))), BOOL)
         plain = NDArray(flat.shape, flat.fn, flat.dtype)
-        return plain._bool_index(keep)
+        out = plain._bool_index(keep)
+        out.compressed_of = (self, flat, keep)        # ghost: position p of the result is flat position selection.sel(p)
+        return out
 
     def filled(self, fill_value=None):
         return ma_filled(self, fill_value)
@@ -1568,7 +1570,57 @@ def np_unique(a):
     vr = getattr(a, 'value_range', None)
     if vr is not None and a.ndim == 1 and vr[1] - vr[0] <= 16:
         return UniqueSmall(a, vr[0], vr[1])
+    if a.ndim == 1 and a.dtype.kind in 'iu' and a.mask_fn is None:
+        return value_set(a)
     raise Unsupported('unique of a general symbolic array')
+
+
+def value_set(a: NDArray):
+    """NP-UNIQUE-VALUESET: numpy.unique of a 1-D array of non-negative integers = the ascending enumeration of the values
+    that occur.  U is a ghost bound above every value (it exists: the array is finite); occurs(e) is an uninterpreted predicate
+    with witness position wit(e):
+        occurs(e)  =>  0 <= wit(e) < len(a)  and  a[wit(e)] == e                      (added whenever occurs(e) is evaluated)
+        0 <= p < len(a)  =>  0 <= a[p] < U  and  occurs(a[p])                         (added by result.value_at(p), a ghost call)
+    Non-negativity of the values is *checked* (a probe position), not assumed."""
+    c = core.ctx()
+    original = a
+    a = a.frozen()
+    n = a.shape[0]
+    probe = mk_int(z3.Int(c._name('uniq_probe')))
+    if c.check_feasible and c.feasible(z3.And(probe.z >= 0, probe.z < zint(n), zint(a.fn((probe,))) < 0)):
+        raise Unsupported('unique of an integer array that may hold negative values')
+    U = c.fresh_int('uniq_bound')
+    c.assume(U >= 0)
+    occurs = c.fresh_fn('occurs', z3.IntSort(), z3.BoolSort())
+    wit = c.fresh_fn('occurs_at', z3.IntSort(), z3.IntSort())
+    used('NP-UNIQUE-VALUESET')
+
+    def keep(e):
+        ez = zint(e)
+        w = wit(ez)
+        core.ctx().assume(z3.Implies(occurs(ez), z3.And(w >= 0, w < zint(n), zint(a.fn((mk_int(w),))) == ez)))
+        return mk_bool(occurs(ez))
+    sel = Selection(U, keep, name='uniq')
+    r = NDArray((sel.count,), lambda i: sel.sel(i[0]), a.dtype)
+    r.selection = sel
+    r.sorted_unique = True
+    r.member_fn = lambda m: s_and(mk_bool(z3.And(zint(m) >= 0, zint(m) < U.z)), keep(m))
+    r.index_total, r.index_keep = U, keep
+    r.valueset = (a, wit, occurs, U)
+    r.source_array = original
+
+    def value_at(p):
+        """ghost: position p of the source holds a value of the set"""
+        v = a.fn((p,))
+        pz = zint(p)
+        core.ctx().assume(z3.Implies(z3.And(pz >= 0, pz < zint(n)), z3.And(zint(v) >= 0, zint(v) < U.z, occurs(zint(v)))))
+        return v
+    r.value_at = value_at
+    reg = getattr(c, 'valuesets', None)          # ghost registry (creation order) for specifications that talk about the witnesses
+    if reg is None:
+        reg = c.valuesets = []
+    reg.append(r)
+    return r
 
 
 class UniqueSmall:
